@@ -4,11 +4,15 @@ simkit::interpose_getrandom!();
 mod c14;
 mod c15;
 mod c19;
+mod c23;
 mod c24;
 mod c25;
+mod c31;
+mod c49;
+mod c56;
 mod c57;
 mod noise;
 
 fn main() {
-    simkit::main_with(vec![c14::check(), c15::check(), c19::check(), c24::check(), c25::check_c25(), c25::check_c26(), c57::check(), noise::check_c16(), noise::check_c17()]);
+    simkit::main_with(vec![c14::check(), c15::check(), c19::check(), c23::check(), c24::check(), c25::check_c25(), c25::check_c26(), c31::check(), c49::check(), c56::check(), c57::check(), noise::check_c16(), noise::check_c17()]);
 }
